@@ -178,8 +178,11 @@ def polygon_triangulate(tri_idx, *args):
     return triangles
 
 
-def make_quad_mesh(points, size_u, size_v):
+def make_quad_mesh(points, size_u, size_v, **kwargs):
     """ Generates a mesh of quadrilateral elements.
+
+    Keyword Arguments:
+        * ``domain``: parametric domain of the surface. *Default: ((0.0, 1.0), (0.0, 1.0))*
 
     :param points: list of points
     :type points: list, tuple
@@ -194,10 +197,17 @@ def make_quad_mesh(points, size_u, size_v):
     vertex_idx = 0
     quad_idx = 0
 
+    # Variable initialization
+    domain = kwargs.get('domain', ((0.0, 1.0), (0.0, 1.0)))  # parametric domain of the surface
+    u_jump = float(domain[0][1] - domain[0][0]) / float(size_u - 1)  # for computing vertex parametric u value
+    v_jump = float(domain[1][1] - domain[1][0]) / float(size_v - 1)  # for computing vertex parametric v value
+
     # Generate vertices
     vertices = []
     for pt in points:
         vrt = Vertex(*pt, id=vertex_idx)
+        vrt.uv = [float(domain[0][0]) + (u_jump * (vertex_idx // size_v)),
+                  float(domain[1][0]) + (v_jump * (vertex_idx % size_v))]
         vertices.append(vrt)
         vertex_idx += 1
 
